@@ -1067,6 +1067,43 @@ def gen_multisig_lines(rng, modelled=True):
     return lines
 
 
+def gen_generate_inherit(rng, origin):
+    """a $GENERATE statement followed by records that inherit the owner (leading white space): they belong to
+    the LAST generated name - or are ignored with it when the generated names lie outside the zone.  Returns
+    (statement spelling, expansion + inherited lines, expansion + explicit owner, None | spelling without the
+    out-of-zone part)"""
+    how = rng.choice(["zone", "sub", "sub", "outside", "outside"])
+    if origin == [b""] and how == "outside":
+        how = "zone"                    # nothing is outside the root zone
+    cur = origin if how in ("zone", "outside") else [rng.choice([b"sub", b"s2"])] + origin
+    if not nl.fits([b"x" * 24] + cur):
+        cur, how = origin, "zone"
+    head = b"$TTL 300\n" + (b"$ORIGIN " + name_text(cur) + b"\n" if cur != origin or rng.random() < 0.3 else b"")
+    before = b"before 300 IN A 192.0.2.1\n"
+    start = rng.choice([0, 1, 7])
+    step = rng.choice([1, 1, 2])
+    stop = start + rng.choice([0, 1, 2, 3])
+    idx = list(range(start, stop + 1, step))
+    suffix = b".outside.test." if how == "outside" else rng.choice([b"", b".deep"])
+    lhs = rng.choice([b"g$", b"gen-$", b"$"]) + suffix
+    ttl = rng.choice([b"300 ", b"60 ", b""])
+    stmt = b"$GENERATE %d-%d%s %s %sIN A 10.0.%d.$\n" % (start, stop, b"/%d" % step if step != 1 else b"", lhs, ttl, rng.randrange(4))
+    third = stmt.split(b"10.0.")[1].split(b".")[0]
+    exp = [lhs.replace(b"$", b"%d" % i) + b" " + (ttl or b"300 ") + b"IN A 10.0." + third + b".%d\n" % i for i in idx]
+    n_tail = rng.choice([1, 1, 2])
+    tails = [rng.choice([b"300 IN TXT \"after\"", b"IN A 192.0.2.77", b"60 MX 5 mail", b"IN TXT \"more\""]) for _ in range(n_tail)]
+    tails = list(dict.fromkeys(tails))
+    last = lhs.replace(b"$", b"%d" % idx[-1])
+    inh = b"".join(rng.choice([b" ", b"\t", b"   "]) + t + b"\n" for t in tails)
+    explicit = b"".join(last + b" " + t + b"\n" for t in tails)
+    after = b"later 300 IN A 192.0.2.2\n" if rng.random() < 0.5 else b""
+    t_stmt = head + before + stmt + inh + after
+    t_exp = head + before + b"".join(exp) + inh + after
+    t_explicit = head + before + b"".join(exp) + explicit + after
+    t_without = head + before + after if how == "outside" else None
+    return t_stmt, t_exp, t_explicit, t_without
+
+
 def mutate_text(rng, text):
     b = bytearray(text)
     if not b:
@@ -1438,6 +1475,17 @@ def cases(ctx):
         if len(files) < 2:
             continue
         yield "respell-include-state", [28, origin, int(rng.random() < 0.5), files, explicit, inlined]
+    # $GENERATE followed by inherited-owner records (zone origin, sub-$ORIGIN, generated names outside the zone);
+    # dns.zonefile.read_rrsets reads with directives disabled, so $GENERATE cannot be reached through it
+    for i in range(ctx.n(80, 1000)):
+        origin, rel, nodes = gen_zone(rng, max_names=1)
+        base = zone_file(rng, origin, rel, nodes, plain=True)
+        t_stmt, t_exp, t_explicit, t_without = gen_generate_inherit(rng, origin)
+        yield "read", [1, origin, int(rel), 1, base + t_stmt]
+        yield "respell-generate-inherit", [21, origin, int(rel), base + t_stmt, base + t_exp]
+        yield "respell-generate-inherit", [21, origin, int(rel), base + t_stmt, base + t_explicit]
+        if t_without is not None:
+            yield "respell-generate-inherit", [21, origin, int(rel), base + t_stmt, base + t_without]
     # several RRSIGs covering the same type at one owner (an rrset signed by more than one key): read / rrsets
     # correspondence, write-then-read, record order
     for i in range(ctx.n(60, 700)):
